@@ -48,8 +48,8 @@ theorem normalize_keys_ok : normalize_keys.all (fun k => normalizeKeysAllowed.co
 /-- the Gaussian window is `exp(-((linspace(-1, 1, W) / sigma)^2))` along the width axis (dim -2), switched off for
 `None` / `0`, multiplied onto the masked k-space: `Sens.linspaceCoord`, `Sens.gaussWeight`, `Sens.gaussianActive`,
 `Sens.acsKspace` -/
-theorem window_eq : window_linspace = windowLinspace ∧ window_guard = windowGuardClauses ∧
-    window_products = windowProducts ∧ window_axis = -2 := by decide
+theorem window_eq : window_linspace = windowLinspace ∧ window_on_for = windowOnFor ∧
+    acs_mask_primitives = acsMaskPrimitives ∧ window_axis = -2 := by decide
 
 /-- the ACS masking is `torch.where(mask == 0, 0, kspace)` (`Sens.maskPixels`): exact zeros off the mask, the data
 itself (not a product) on it -/
